@@ -36,7 +36,7 @@ class Renaming:
     def comp(self, c: str) -> str:
         if c not in self.fwd:
             i = len(self.fwd)
-            n = self.pool[i] if i < len(self.pool) else f"{self.pool[i % len(self.pool)]}{i // len(self.pool)}"
+            n = self.pool[i] if i < len(self.pool) else f"{self.pool[i % len(self.pool)]}q{i // len(self.pool)}"
             assert n not in self.bwd, "renaming must stay injective"
             self.fwd[c] = n
             self.bwd[n] = c
